@@ -203,6 +203,10 @@ def proto_bld(steps, portable):
 
 # ------------------------------------------------------------------------------------ derive attributes
 
+import random as _random
+ATTR_R = _random.Random(99)
+
+
 def gen_attr(r):
     """-> (rust source, proto)"""
     union = r.random() < 0.08
@@ -218,10 +222,18 @@ def gen_attr(r):
             attrs.append(('skip', skipped))
         if r.random() < 0.7 or mode == 'missing_bound':
             named = [p for p in params if p not in skipped]
+            extra = []
             if mode == 'missing_bound' and named:
                 # leave one non-skipped parameter out; put a skipped one before it when possible
-                named = named[:-1] if r.random() < 0.5 else named[1:]
-            attrs.append(('bounds', named))
+                out = named[-1] if r.random() < 0.5 else named[0]
+                named = [p for p in named if p != out]
+                if r.random() < 0.6:
+                    # ... but mention it in a predicate that does NOT bound the parameter itself (a projection, a type built from it)
+                    extra.append((r.choice(['vec', 'proj', 'qproj', 'ref']), out))
+            for p in params:
+                if r.random() < 0.25:
+                    extra.append((r.choice(['vec', 'proj', 'qproj', 'ref']), p))
+            attrs.append(('bounds', named, extra))
     if r.random() < 0.5 or mode == 'badcap':
         attrs.append(('cap', r.choice(['sometimes', '', 'alway', 'true']) if mode == 'badcap' else r.choice(['default', 'always', 'never', 'Always', 'NEVER'])))
     if r.random() < 0.2:
@@ -238,7 +250,12 @@ def gen_attr(r):
 
     def ra(a):
         if a[0] == 'bounds':
-            return 'bounds(' + ', '.join(f"{p}: ::scale_info::TypeInfo + 'static" for p in a[1]) + ')'
+            preds = [f"{p}: ::scale_info::TypeInfo + 'static" for p in a[1]]
+            for kind, p in (a[2] if len(a) > 2 else []):
+                preds.insert(ATTR_R.randrange(len(preds) + 1),
+                             {'vec': f"Vec<{p}>: ::scale_info::TypeInfo + 'static", 'proj': f"{p}::A: ::core::marker::Copy",
+                              'qproj': f"<{p} as TrA>::A: ::core::marker::Copy", 'ref': f"&'static {p}: ::core::marker::Copy"}[kind])
+            return 'bounds(' + ', '.join(preds) + ')'
         if a[0] == 'skip':
             return 'skip_type_params(' + ', '.join(a[1]) + ')'
         if a[0] == 'cap':
@@ -257,13 +274,13 @@ def gen_attr(r):
             if part:
                 lines += '#[scale_info(' + ', '.join(ra(a) for a in part) + ')]\n'
     # inline bounds keep the item itself valid whatever the attributes do, so only the derive can reject it
-    gens = '<' + ', '.join(f"{p}: ::scale_info::TypeInfo + 'static" for p in params) + '>' if params else ''
+    gens = '<' + ', '.join(f"{p}: ::scale_info::TypeInfo + 'static + TrA" for p in params) + '>' if params else ''
     if union:
         body = 'pub union S { a: u8, b: u16 }'
     else:
         fields = ''.join(f'    pub f{i}: ' + (f'core::marker::PhantomData<{p}>' if p in skipped else p) + ',\n' for i, p in enumerate(params))
         body = f'pub struct S{gens} {{\n{fields}    pub z: u8,\n}}'
-    src = '#![allow(unused)]\nuse scale_info::TypeInfo;\n#[derive(TypeInfo)]\n' + lines + body + '\nfn main() {}\n'
+    src = '#![allow(unused)]\nuse scale_info::TypeInfo;\npub trait TrA { type A; }\n#[derive(TypeInfo)]\n' + lines + body + '\nfn main() {}\n'
 
     def pa(a):
         if a[0] == 'bounds':
@@ -501,11 +518,26 @@ def main():
     ap.add_argument('--out', required=True)
     a = ap.parse_args()
     r = random.Random(a.seed * 104729 + 7)
+    ATTR_R.seed(a.seed * 17 + 3)
     bind = os.path.join(a.out, 'src', 'bin')
     shutil.rmtree(bind, ignore_errors=True)
     os.makedirs(bind)
     classes = a.classes.split(',')
     lines = []
+    if 'bld' in classes:
+        # exhaustive small part, the same in every run: every sequence of 1..3 field-builder calls over {name, ty, compact, type_name}
+        # in a named and in an unnamed member list (compile-time form), as the only member of a composite and of a variant
+        import itertools
+        kx = 0
+        for kind in ('n', 'x'):
+            for ln in (1, 2, 3):
+                for seq in itertools.product(['name', 'ty', 'compact', 'tn'], repeat=ln):
+                    fp = [kind, [list(seq)]]
+                    steps = [['path'], ['comp', fp]] if kx % 2 == 0 else [['path'], ['var', [[['idx'], ['fs', fp]]]]]
+                    src, pr = rust_bld(steps, False), 'bld ' + proto_bld(steps, False)
+                    open(os.path.join(bind, f'x{kx}.rs'), 'w').write(src)
+                    lines.append(f'neg x{kx} {pr}')
+                    kx += 1
     for k in range(a.n):
         cls = classes[k % len(classes)]
         if cls == 'bld':
